@@ -481,4 +481,74 @@ theorem decodePin_encode (p : PinRaw) (hw : wfMsg p = true) : decodePin (encodeT
     simp only [wfMsg, fitsWire, Bool.and_eq_true] at hw; exact hw.1.2.1
   simp [decodePin, fields_encode _ hf (toksPin_plain p), pinOfToks_toksPin p hw]
 
+
+/-! ## field order, unknown fields -/
+
+def PUpd.tag : PUpd → Nat
+  | .cid _ => 1 | .type _ => 2 | .alloc _ => 3 | .depth _ => 4 | .ref _ => 5 | .opts _ => 6 | .skip => 0
+
+theorem pinUpd_tag {t : Tok} {u : PUpd} (h : pinUpd t = some u) : u.tag = 0 ∨ u.tag = t.num := by
+  unfold pinUpd at h
+  split at h
+  all_goals first
+    | (simp only [Option.some.injEq] at h; subst h; simp [PUpd.tag]; done)
+    | (simp only [Option.some.injEq] at h; subst h; simp [PUpd.tag]; omega)
+    | (simp only [Option.map_eq_some_iff] at h; obtain ⟨_, _, rfl⟩ := h; simp [PUpd.tag]; omega)
+
+theorem applyP_comm (s : PinRaw) (u v : PUpd) (h : u.tag ≠ v.tag ∨ u.tag = 0 ∨ v.tag = 0) :
+    applyP (applyP s u) v = applyP (applyP s v) u := by
+  cases u <;> cases v <;> simp [applyP, PUpd.tag] at h ⊢
+
+theorem mapOpt_append_eq {f : α → Option β} : ∀ (a b : List α), mapOpt f (a ++ b) =
+    match mapOpt f a, mapOpt f b with
+    | some x, some y => some (x ++ y)
+    | _, _ => none
+  | [], b => by cases h : mapOpt f b <;> simp [mapOpt, h]
+  | a0 :: a, b => by
+    simp only [List.cons_append, mapOpt, mapOpt_append_eq a b]
+    cases f a0 <;> cases mapOpt f a <;> cases mapOpt f b <;> simp
+
+/-- reorderings of a token list that keep the relative order of tokens with the same field number:
+    generated by swapping neighbours with different field numbers -/
+inductive FieldPerm : List Tok → List Tok → Prop
+  | refl (l : List Tok) : FieldPerm l l
+  | swap (l1 l2 : List Tok) (a b : Tok) : a.num ≠ b.num → FieldPerm (l1 ++ a :: b :: l2) (l1 ++ b :: a :: l2)
+  | trans {a b c : List Tok} : FieldPerm a b → FieldPerm b c → FieldPerm a c
+
+theorem pinOfToks_swap (l1 l2 : List Tok) (a b : Tok) (h : a.num ≠ b.num) :
+    pinOfToks (l1 ++ a :: b :: l2) = pinOfToks (l1 ++ b :: a :: l2) := by
+  unfold pinOfToks
+  rw [mapOpt_append_eq, mapOpt_append_eq]
+  simp only [mapOpt]
+  cases h1 : mapOpt pinUpd l1 <;> cases ha : pinUpd a <;> cases hb : pinUpd b <;> cases h2 : mapOpt pinUpd l2 <;> simp
+  rename_i x u v y
+  have hc : u.tag ≠ v.tag ∨ u.tag = 0 ∨ v.tag = 0 := by
+    rcases pinUpd_tag ha with e | e <;> rcases pinUpd_tag hb with e' | e'
+    · exact Or.inr (Or.inl e)
+    · exact Or.inr (Or.inl e)
+    · exact Or.inr (Or.inr e')
+    · exact Or.inl (by rw [e, e']; exact h)
+  rw [applyP_comm _ u v hc]
+
+/-- protobuf decoders accept the fields in any order: the decoded message only depends on the relative order
+    of the tokens of one field number (last scalar wins, repeated fields in order) -/
+theorem pinOfToks_perm {ts ts' : List Tok} (h : FieldPerm ts ts') : pinOfToks ts = pinOfToks ts' := by
+  induction h with
+  | refl => rfl
+  | swap l1 l2 a b hab => exact pinOfToks_swap l1 l2 a b hab
+  | trans _ _ ih1 ih2 => exact ih1.trans ih2
+
+/-- a token that is not a field of `pb.Pin` in its wire type (unknown number, or a known number with another
+    wire type) changes nothing -/
+theorem pinOfToks_skip (l1 l2 : List Tok) (t : Tok) (h : pinUpd t = some .skip) :
+    pinOfToks (l1 ++ t :: l2) = pinOfToks (l1 ++ l2) := by
+  unfold pinOfToks
+  rw [mapOpt_append_eq, mapOpt_append_eq]
+  simp only [mapOpt, h]
+  cases mapOpt pinUpd l1 <;> cases mapOpt pinUpd l2 <;> simp [applyP]
+
+theorem pinUpd_unknown (t : Tok) (h : 6 < t.num) : pinUpd t = some .skip := by
+  unfold pinUpd
+  split <;> first | omega | rfl
+
 end CV.C08.Wire
